@@ -849,7 +849,8 @@ class RestartFailedCall(common.Suite):
         for i in range(n):
             ncalls = rng.randint(2, 6)
             yield {"ncalls": ncalls, "fail_at": sorted(rng.sample(range(1, ncalls), rng.choice([0, 1, 1, min(2, ncalls - 1)]))),
-                   "write_kwargs": [None, {"indent": 2}, {"sort_keys": True}][i % 3], "mode": rng.choice("aw")}
+                   "write_kwargs": [None, {"indent": 2}, {"sort_keys": True}, {"allow_nan": False, "indent": 1}][i % 4],
+                   "mode": rng.choice("aw")}
 
     def real(self, case):
         import numpy as np
@@ -888,14 +889,17 @@ class RestartFailedCall(common.Suite):
             path = pathlib.Path(tmp) / "restart.json"
             kw = {} if case["write_kwargs"] is None else {"write_kwargs": dict(case["write_kwargs"])}
             ro = RestartObserver(sim, path, interval=1, mode=case["mode"], **kw)
+            sim.validate_simulation()        # reference energy etc. are numbers from here on (a strict encoder refuses nan)
             last_good = None
+            strict = bool(case["write_kwargs"]) and case["write_kwargs"].get("allow_nan") is False
             for c in range(case["ncalls"]):
-                state["call"] = c
+                state["call"] = -1 if strict else c      # with a strict encoder the failure is the ENCODER's, not to_dict's:
                 sim.step_count = c
+                sim.temperature = float("inf") if (strict and c in fail_at) else 300.0   # … a state it refuses (inf)
                 try:
                     ro()
                     ok = True
-                except RuntimeError:
+                except (RuntimeError, ValueError):
                     ok = False
                 except TypeError as e:
                     out["calls"].append({"ok": False, "typeerror": str(e)[:120]})
@@ -920,6 +924,8 @@ class RestartFailedCall(common.Suite):
                 out.append((f"restart-call:write-kwargs-refused:{sorted(case['write_kwargs'] or {})}",
                             f"call {i}: {c['typeerror']}"))
                 break
+            if c["want"] is None and not c["ok"] and c["size"] == 0:
+                continue      # nothing has been written yet and nothing was: there is no restart point to lose
             if c["file_step"] != c["want"]:
                 out.append(("restart-call:previous-restart-point-lost" if not c["ok"] else "restart-call:document-not-current",
                             f"call {i} ({'completed' if c['ok'] else 'failed in to_dict'}): the file holds {c['file_step']!r} "
